@@ -5,6 +5,8 @@ import (
 	"io"
 	"reflect"
 	"strings"
+	"sync"
+	"sync/atomic"
 	"unicode/utf16"
 	"unicode/utf8"
 
@@ -20,21 +22,30 @@ import (
 // saves CPU and memory.
 // Currently, importedString is created in 2 cases: Runtime.ToValue() for strings longer than 16 bytes and as a result
 // of JSON.stringify() if it may contain unicode characters. More cases could be added in the future.
+//
+// As any other primitive value an importedString can be shared between runtimes running on different goroutines,
+// therefore the lazy scan is done once (scanOnce) and its result is published by setting the atomic scanned flag:
+// u must only be read after ensureScanned() or after isScanned() has returned true.
 type importedString struct {
 	s string
 	u unicodeString
 
-	scanned bool
+	scanned  atomic.Bool
+	scanOnce sync.Once
 }
 
 func (i *importedString) scan() {
 	i.u = unistring.Scan(i.s)
-	i.scanned = true
+	i.scanned.Store(true)
+}
+
+func (i *importedString) isScanned() bool {
+	return i.scanned.Load()
 }
 
 func (i *importedString) ensureScanned() {
-	if !i.scanned {
-		i.scan()
+	if !i.scanned.Load() {
+		i.scanOnce.Do(i.scan)
 	}
 }
 
@@ -108,7 +119,7 @@ func (i *importedString) Equals(other Value) bool {
 func (i *importedString) StrictEquals(other Value) bool {
 	switch otherStr := other.(type) {
 	case asciiString:
-		if i.u != nil {
+		if i.isScanned() && i.u != nil {
 			return false
 		}
 		return i.s == string(otherStr)
@@ -164,9 +175,9 @@ func (i *importedString) Length() int {
 }
 
 func (i *importedString) Concat(v String) String {
-	if !i.scanned {
+	if !i.isScanned() {
 		if v, ok := v.(*importedString); ok {
-			if !v.scanned {
+			if !v.isScanned() {
 				return &importedString{s: i.s + v.s}
 			}
 		}
@@ -195,7 +206,7 @@ func (i *importedString) CompareTo(v String) int {
 }
 
 func (i *importedString) Reader() io.RuneReader {
-	if i.scanned {
+	if i.isScanned() {
 		if i.u != nil {
 			return i.u.Reader()
 		}
@@ -241,7 +252,7 @@ func (s *stringUtf16Reader) ReadRune() (r rune, size int, err error) {
 }
 
 func (i *importedString) utf16Reader() utf16Reader {
-	if i.scanned {
+	if i.isScanned() {
 		if i.u != nil {
 			return i.u.utf16Reader()
 		}
@@ -253,7 +264,7 @@ func (i *importedString) utf16Reader() utf16Reader {
 }
 
 func (i *importedString) utf16RuneReader() io.RuneReader {
-	if i.scanned {
+	if i.isScanned() {
 		if i.u != nil {
 			return i.u.utf16RuneReader()
 		}
